@@ -1,5 +1,6 @@
 mod client;
 mod daemon;
+mod shm;
 mod wire;
 mod rng;
 mod util;
@@ -14,6 +15,7 @@ fn exec_line(line: &str) -> String {
         Some("client") => client::exec(&toks),
         Some("client2") => client::exec2(&toks),
         Some("extract") => daemon::exec_extract(&toks),
+        Some("gen") => shm::exec_gen(&toks),
         Some("upd") => daemon::exec_upd(line),
         _ => "bad-op".into(),
     }
@@ -58,6 +60,7 @@ fn main() {
             let mut rng = rng::Rng::new(seed);
             for _ in 0..count { emit(daemon::gen_extract(&mut rng)); }
         }
+        Some("genall") => { drop(emit); shm::gen_all(|req, ans| { writeln!(out, "{} => {}", req, ans).unwrap(); }); }
         Some("leapgrid") => { for g in daemon::leap_grid() { emit(g); } }
         Some("upd") => {
             let seed: u64 = args[2].parse().unwrap();
